@@ -140,6 +140,10 @@ def content_robustness_part(rep, tier):
     for c in (b'\x81', b'\x81\x40\x81', b'\xeb\xbf\n', b'\x93\x5f\n', b'\x93\x5f\r', b'\x93\x5f\x93', b'\xb0\xa1\n', 0, 7, 10 ** 30):
         for mode in (None, 'numeric', 'byte', 'kanji', 'hanzi'):
             calls.append(call('make', c, **({} if mode is None else {'mode': mode})))
+    # requested mode hanzi on byte pairs: the rows A1-AA and B0-FA exist, AB-AF and everything else is refused
+    for hi in range(0xa0, 0x100, 1 if tier == 'thorough' else 1):
+        for lo in (0xa1, 0xc0, 0xfe):
+            calls.append(call('make', bytes([hi, lo]), mode='hanzi'))
     # spellings of the encoding argument (aliases, case) with and without ECI at every length: honoured means the symbol still decodes
     calls += gen.eci_boundary_calls(call, tier == 'quick')
     obs = symobs.observe_many([c for c in calls if c['api'] != 'make_sequence'], props=['C01', 'C02', 'C03'])
